@@ -460,8 +460,10 @@ def write_evidence(mod, report, nviol):
         "wall_s": round(time.time() - report.t0, 2),
         "violations": int(nviol),
     }
-    os.makedirs(os.path.join(VERIF, "evidence"), exist_ok=True)
-    path = os.path.join(VERIF, "evidence", "%s.json" % mod.ID)
+    # runs against a scratch copy of the library (seeded changes, development) may redirect their evidence elsewhere
+    evdir = os.environ.get("VERIF_EVIDENCE_DIR") or os.path.join(VERIF, "evidence")
+    os.makedirs(evdir, exist_ok=True)
+    path = os.path.join(evdir, "%s.json" % mod.ID)
     tmp = path + ".tmp"
     with open(tmp, "w") as f:
         json.dump(ev, f, indent=1, default=_jsonable)
